@@ -9,6 +9,8 @@ NOTE = ("Trusted: Coq 8.16.1 kernel + vm_compute; harness/gen_tables.py and the 
         "Biopython/re/fs behaviour as modelled (see DESIGN.md section 7). No axioms (Print Assumptions: closed).")
 
 CLAIMED = {
+ "C03": "Theorems on the model of AssemblyManager over typed elements with arbitrary overhang keys: the outcome is characterised by the overhang graph (product iff the vector's overhangs differ, no two distinct modules share or reverse-complement a start overhang, and the chain from the vector's downstream overhang reaches its upstream overhang; otherwise InvalidSequence / DuplicateModules naming a clashing pair / MissingModule naming the stalled overhang), each module used at most once, unused = exactly the rest, permutation invariance, fuel never exhausted; _assembly.py tied by correspondence at two levels (walk fed with the implementation's overhangs; end to end from raw sequences) over every vector pair x every ordered list of <= 2 modules over an alphabet with reverse-complementary and palindromic overhangs, sampled longer lists in all permutations, mixed case; independent graph oracle.",
+ "C19": "Swap theorem on the model of the assembly walk for every module list, position and replacement with the same overhang keys: same chain, same unused set, products equal outside the replaced segment; tied by correspondence of both products from raw sequences for one enzyme of every geometry of the family, and a segment-wise oracle.",
  "C14": "Theorems for all sequences, all coordinates (read modulo n) and all rotations: rc is an involution, the feature table of the reverse complement is a permutation of the flipped features, each part lands on the opposite strand, covers the mirror positions and denotes the reverse complement, flip is an involution, rc commutes with rotation; SeqRecord.reverse_complement/_flip as modelled are tied by exact comparison of (sequence, ordered feature table, tracks) under composed rc/>>/<< operations; the object-level clause (result is a CircularRecord) is decided by the oracle.",
  "C15": "Theorems for every alphabet and length: circular membership iff (no longer than the record and occurs in some rotation), hence rotation-independent; the TypeError/ValueError/plain-slice/deep-copy clauses are object-protocol facts modelled as constant outcomes and decided by exhaustive correspondence over operand kinds, topology spellings, slice bounds and copy-mutation probes.",
  "C13": "Unbounded theorems (all lengths, all k in Z, all compositions, all feature shapes and tracks) on the model of >>/<<; the model is tied to record.py by differential correspondence evaluated by vm_compute on an exhaustive small scope (every length x every k in [-2n,2n]) plus random cases, and a direct oracle restates the property on the implementation.",
